@@ -113,7 +113,36 @@ func equalityPolarity(p *core.Prog, roots []*ssa.Function) (bad []string, checke
 				}
 			}
 		})
-		if orders || len(eqs) == 0 {
+		// calls that answer "equal": the library's comparisons and the package's own equality predicates
+		var eqCalls []*ssa.Call
+		core.EachInstr(g, func(i ssa.Instruction) {
+			c, ok := i.(*ssa.Call)
+			if !ok || len(c.Call.Args) < 2 {
+				return
+			}
+			h := core.StaticCallee(c)
+			if h == nil {
+				return
+			}
+			isEq := false
+			switch core.QualName(h) {
+			case "strings.EqualFold", "reflect.DeepEqual", "bytes.Equal", "bytes.EqualFold":
+				isEq = true
+			}
+			for _, cg := range cands {
+				if cg == h {
+					isEq = true
+				}
+			}
+			if isValueEqualityPredicate(p, h) {
+				isEq = true
+			}
+			x, y := derive(c.Call.Args[0], 0), derive(c.Call.Args[1], 0)
+			if isEq && ((x == 1 && y == 2) || (x == 2 && y == 1)) {
+				eqCalls = append(eqCalls, c)
+			}
+		})
+		if orders || len(eqs)+len(eqCalls) == 0 {
 			continue
 		}
 		preds = append(preds, core.FuncName(g))
@@ -138,6 +167,21 @@ func equalityPolarity(p *core.Prog, roots []*ssa.Function) (bad []string, checke
 				return false, false
 			}
 			return false, false
+		}
+		for _, c := range eqCalls {
+			checked++
+			for _, ref := range core.Refs(c) {
+				u, ok := ref.(*ssa.If)
+				if !ok || u.Cond != ssa.Value(c) {
+					continue
+				}
+				if v, ok := retConst(u.Block().Succs[0]); ok && !v {
+					bad = append(bad, fmt.Sprintf("%s (%s): when %s finds the parts of the two operands equal, the predicate answers false at once", core.FuncName(g), p.Pos(c.Pos()), core.CalleeID(c)))
+				}
+				if v, ok := retConst(u.Block().Succs[1]); ok && v {
+					bad = append(bad, fmt.Sprintf("%s (%s): when %s finds the parts of the two operands different, the predicate answers true at once", core.FuncName(g), p.Pos(c.Pos()), core.CalleeID(c)))
+				}
+			}
 		}
 		for _, b := range eqs {
 			checked++
